@@ -235,10 +235,50 @@ func c07FuncLit(fn *ast.FuncDecl, name string) *ast.FuncLit {
 //	for _, v := range <list> { value = v.transform(value.(streamReader)) }     RStream (outside the value model)
 //	return value, nil                        RPass value
 //	return nil, <error>                      RStop
+//	return h(<list>, value, isStream)        a private function h(hs, value, isStream) of the same file that holds
+//	                                         the loops (the tail of the three methods extracted into one helper): inlined
 type c07HandleTr struct {
 	what    string
 	lookups map[string]int
 	list    string
+	file    *ast.File
+	depth   int
+}
+
+// return h(<list>, value, isStream): the body of h with its first parameter standing for <list>
+func (t *c07HandleTr) inlineTail(call *ast.CallExpr, ind string) (string, error) {
+	id, ok := call.Fun.(*ast.Ident)
+	if !ok || t.file == nil || t.depth >= 2 {
+		return "", fmt.Errorf("%s: return %s not recognised", t.what, c07Squash(c07sq(call)))
+	}
+	fn := c07TopFunc(t.file, id.Name)
+	if fn == nil || fn.Body == nil || (fn.Type.TypeParams != nil && len(fn.Type.TypeParams.List) > 0) {
+		return "", fmt.Errorf("%s: return %s(…): no such function in the file", t.what, id.Name)
+	}
+	var ps []string
+	for _, fl := range fn.Type.Params.List {
+		for _, n := range fl.Names {
+			ps = append(ps, n.Name)
+		}
+	}
+	if len(ps) != 3 || len(call.Args) != 3 || ps[1] != "value" || ps[2] != "isStream" || ps[0] == "value" || ps[0] == "isStream" ||
+		c07sq(call.Args[0]) != t.list || c07sq(call.Args[1]) != "value" || c07sq(call.Args[2]) != "isStream" {
+		return "", fmt.Errorf("%s: return %s(…) is not a call h(%s, value, isStream) of a function h(hs, value, isStream)", t.what, id.Name, t.list)
+	}
+	var rs []string
+	if fn.Type.Results != nil {
+		for _, fl := range fn.Type.Results.List {
+			if len(fl.Names) > 0 {
+				rs = append(rs, "named")
+			}
+			rs = append(rs, c07sq(fl.Type))
+		}
+	}
+	if r := strings.Join(rs, ","); r != "any,error" && r != "interface{},error" {
+		return "", fmt.Errorf("%s: %s does not return (any, error)", t.what, id.Name)
+	}
+	sub := &c07HandleTr{what: t.what + " > " + id.Name, lookups: map[string]int{}, list: ps[0], file: t.file, depth: t.depth + 1}
+	return sub.stmts(fn.Body.List, ind)
 }
 
 func (t *c07HandleTr) cond(e ast.Expr) (string, error) {
@@ -298,6 +338,11 @@ func (t *c07HandleTr) stmts(l []ast.Stmt, ind string) (string, error) {
 		if len(x.Results) == 2 && c07IsNil(x.Results[0]) {
 			if c, ok := x.Results[1].(*ast.CallExpr); ok && (c07sq(c.Fun) == "fmt.Errorf" || c07sq(c.Fun) == "errors.New") {
 				return "RStop", nil
+			}
+		}
+		if len(x.Results) == 1 {
+			if call, ok := x.Results[0].(*ast.CallExpr); ok {
+				return t.inlineTail(call, ind)
 			}
 		}
 		return "", fmt.Errorf("%s: return %s not recognised", t.what, c07Squash(c07ExprList(x.Results)))
@@ -390,7 +435,7 @@ func c07HandleMethod(f *ast.File, typ string, lookups []string, list string) (st
 	}
 	recv := fn.Recv.List[0].Names[0].Name
 	sub := func(s string) string { return strings.ReplaceAll(s, "RECV", recv) }
-	t := &c07HandleTr{what: typ + ".handle", lookups: map[string]int{}, list: sub(list)}
+	t := &c07HandleTr{what: typ + ".handle", lookups: map[string]int{}, list: sub(list), file: f}
 	for i, lk := range lookups {
 		t.lookups[sub(lk)] = i
 	}
